@@ -77,7 +77,7 @@ def c02(ctx):
     ctx.assumptions += ["alarm = the property's own sentence (long-lived differs from brand-new); a generator that is wrong but consistent is C01's business"]
 
 
-PERFT_QUICK = [("start", 3), ("kiwipete", 2), ("suite3", 3), ("suite4", 2), ("suite4m", 2), ("suite5", 2), ("suite6", 2), ("ep-two-capturers", 3), ("castle-all-w", 2), ("promo-takes-rook-w", 3), ("corner-rooks-trade-a", 3), ("corner-rooks-trade-h", 3)]
+PERFT_QUICK = [("start", 3), ("kiwipete", 2), ("suite3", 3), ("suite4", 2), ("suite4m", 2), ("suite5", 2), ("suite6", 2), ("ep-two-capturers", 3), ("castle-all-w", 2), ("promo-takes-rook-w", 3), ("corner-rooks-trade-a", 3), ("corner-rooks-trade-h", 3), ("ep-pinned-diag-far-w", 2), ("ep-pinned-diag-far-b", 2), ("ep-pinned-rank-inner-w", 2), ("ep-pinned-rank-inner-b", 2)]
 PERFT_THOROUGH = [("start", 4), ("kiwipete", 3), ("suite3", 4), ("suite4", 3), ("suite4m", 3), ("suite5", 3), ("suite6", 3), ("ep-two-capturers", 4), ("castle-all-w", 3), ("castle-all-b", 3),
                   ("promo-takes-rook-w", 4), ("promo-takes-rook-b", 4), ("mc-engine", 4), ("ep-pinned-rank", 4), ("corner-rooks-trade-a", 4), ("corner-rooks-trade-h", 4)]
 
